@@ -839,6 +839,14 @@ Proof. unfold view_tuple. destruct (decode pi); reflexivity. Qed.
 Definition tail_or_404 (c : config) (rq : request) (fs : fsys) (s : text) (segs : list text) : spec_out :=
   if forallb seg_ok segs then spec_tail c rq fs (Some s) segs else S404.
 
+Lemma tail_or_404_eq c rq fs s segs :
+  match (if forallb seg_ok segs then Some (Some segs) else Some None) with
+  | Some (Some sg) => spec_tail c rq fs (Some s) sg
+  | Some None => S404
+  | None => SReject
+  end = tail_or_404 c rq fs s segs.
+Proof. unfold tail_or_404. destruct (forallb seg_ok segs); reflexivity. Qed.
+
 Lemma routed_conform c rq fs fm prefix p0 r fm' log :
   wf c -> root_is_dir c fs -> host_ok c -> fm_exact c fs fm -> decode (unquote (r_raw rq)) = Some p0 ->
   match route_match prefix (match p0 with [] => [slash] | _ => p0 end) with
@@ -880,16 +888,16 @@ Proof.
             exists s, decode (unquote (r_raw rq)) = Some s).
   { intros (H0 & H1 & H2). destruct Hmd as [[E|[E|E]]|Hd]; try contradiction.
     destruct (decode (unquote (r_raw rq))) as [s|]; [exists s; reflexivity|congruence]. }
-  unfold run_request in H. unfold spec_response, spec_segments, route_prefix, spec_prefix.
+  unfold run_request, route_prefix in H. unfold spec_response, spec_segments, spec_prefix.
   revert H Hother. destruct (c_mount c) as [|[q|q|]]; intros H Hother.
   - (* 0: add_static_view *)
     destruct (decode (unquote (r_raw rq))) as [p0|] eqn:Hdec; [|apply (Hrej 1); auto].
     change (text_eqb static_route_star traverser_subpath_key) with true in H.
     change static_use_subpath with true in H. cbv iota in H.
     pose proof (routed_conform c rq fs fm _ p0 r fm' log Hwf Hroot Hhost Hfm Hdec H) as [H1 H2].
-    split; [assumption|]. cbv beta iota. cbv beta iota in H2. revert H2. unfold tail_or_404.
-    destruct (strip_prefix _ _); [|exact (fun x => x)].
-    destruct (forallb seg_ok _); exact (fun x => x).
+    split; [assumption|]. cbv beta iota. cbv beta iota in H2. revert H2.
+    destruct (strip_prefix _ _); try exact (fun x => x).
+    intros x. refine (eq_trans (f_equal (conforms r) (tail_or_404_eq c rq fs p0 _)) x).
   - (* odd, at least 3 *)
     destruct Hother as [s Hdec]; [repeat split; discriminate|]. exact (Hgiven s Hdec H).
   - destruct q as [q|q|].
@@ -900,12 +908,254 @@ Proof.
       destruct (decode (unquote (r_raw rq))) as [p0|] eqn:Hdec; [|apply (Hrej 2); auto].
       cbn [strip_prefix]. rewrite spi_default.
       pose proof (serve_conform c rq _ fs fm _ p0 r fm' log Hwf Hroot Hhost Hfm Hdec H) as [H1 H2].
-      split; [assumption|]. destruct (forallb seg_ok _); exact H2.
+      split; [assumption|]. refine (eq_trans (f_equal (conforms r) (tail_or_404_eq c rq fs p0 _)) H2).
   - (* 1: catch-all route *)
     destruct (decode (unquote (r_raw rq))) as [p0|] eqn:Hdec; [|apply (Hrej 1); auto].
     change (text_eqb subpath_key traverser_subpath_key) with true in H. cbv iota in H.
     pose proof (routed_conform c rq fs fm _ p0 r fm' log Hwf Hroot Hhost Hfm Hdec H) as [H1 H2].
-    split; [assumption|]. cbv beta iota. cbv beta iota in H2. revert H2. unfold tail_or_404.
-    destruct (strip_prefix _ _); [|exact (fun x => x)].
-    destruct (forallb seg_ok _); exact (fun x => x).
+    split; [assumption|]. cbv beta iota. cbv beta iota in H2. revert H2.
+    destruct (strip_prefix _ _); try exact (fun x => x).
+    intros x. refine (eq_trans (f_equal (conforms r) (tail_or_404_eq c rq fs p0 _)) x).
+Qed.
+
+(* ------------------------------------------------------------ request sequences: conformance and filemap transparency *)
+Definition decodable (c : config) (rq : request) : Prop :=
+  (c_mount c = 0 \/ c_mount c = 1 \/ c_mount c = 2) \/ decode (unquote (r_raw rq)) <> None.
+
+Lemma run_requests_conform c fs rqs : forall fm,
+  wf c -> root_is_dir c fs -> host_ok c -> fm_exact c fs fm -> Forall (decodable c) rqs ->
+  Forall (fun x => conforms (fst (snd x)) (spec_response c (fst x) fs) = true)
+         (combine rqs (run_requests c fs fm rqs)).
+Proof.
+  induction rqs as [|rq rqs IH]; intros fm Hwf Hroot Hhost Hfm Hd; [constructor|].
+  inversion Hd as [|? ? Hd1 Hdr]; subst. cbn [run_requests].
+  destruct (run_request c fs fm rq) as [[r fm'] log] eqn:E.
+  destruct (request_conform c fs fm rq r fm' log Hwf Hroot Hhost Hfm Hd1 E) as [Hfm' Hc].
+  cbn [combine]. constructor; [exact Hc|]. apply IH; assumption.
+Qed.
+
+Theorem serves_designated_file c fs rqs :
+  wf c -> root_is_dir c fs -> host_ok c -> Forall (decodable c) rqs ->
+  Forall (fun x => conforms (fst (snd x)) (spec_response c (fst x) fs) = true)
+         (combine rqs (run_model c fs rqs)).
+Proof. intros. apply run_requests_conform; try assumption. apply fm_exact_nil. Qed.
+
+(* the answer does not depend on what the filemap holds, as long as it holds what was computed
+   from this file system *)
+Lemma serve_indep c rq pi fs fm t :
+  fm_exact c fs fm ->
+  fst (fst (serve c rq pi fs fm t)) = fst (fst (serve c rq pi fs [] t)) /\
+  fm_exact c fs (snd (fst (serve c rq pi fs fm t))).
+Proof.
+  intros Hfm.
+  destruct (serve c rq pi fs fm t) as [[r1 fm1] l1] eqn:E1.
+  destruct (serve c rq pi fs [] t) as [[r2 fm2] l2] eqn:E2.
+  destruct (serve_val _ _ _ _ _ _ _ _ _ Hfm E1) as [H1 ->].
+  destruct (serve_val _ _ _ _ _ _ _ _ _ (fm_exact_nil c fs) E2) as [_ ->]. split; [reflexivity|assumption].
+Qed.
+
+Lemma run_request_indep c fs fm rq :
+  fm_exact c fs fm ->
+  fst (fst (run_request c fs fm rq)) = fst (fst (run_request c fs [] rq)) /\
+  fm_exact c fs (snd (fst (run_request c fs fm rq))).
+Proof.
+  intros Hfm. unfold run_request, serve_path_info.
+  destruct (c_mount c) as [|[q|q|]].
+  - destruct (decode _); [|split; [reflexivity|assumption]].
+    destruct (route_match _ _); [|split; [reflexivity|assumption]].
+    destruct static_use_subpath; [apply serve_indep; assumption|].
+    destruct (view_tuple _); [split; [reflexivity|assumption]|apply serve_indep; assumption].
+  - apply serve_indep; assumption.
+  - destruct q as [q|q|]; try (apply serve_indep; assumption).
+    destruct (view_tuple _); [split; [reflexivity|assumption]|apply serve_indep; assumption].
+  - destruct (decode _); [|split; [reflexivity|assumption]].
+    destruct (route_match _ _); [|split; [reflexivity|assumption]].
+    apply serve_indep; assumption.
+Qed.
+
+Theorem filemap_transparent c fs rqs : forall fm,
+  fm_exact c fs fm ->
+  map fst (run_requests c fs fm rqs) = map (fun rq => fst (fst (run_request c fs [] rq))) rqs.
+Proof.
+  induction rqs as [|rq rqs IH]; intros fm Hfm; [reflexivity|].
+  cbn [run_requests map]. destruct (run_request_indep c fs fm rq Hfm) as [E Hfm'].
+  destruct (run_request c fs fm rq) as [[r fm'] log]. cbn [fst snd map] in *. rewrite E. f_equal. apply IH. assumption.
+Qed.
+
+(* ------------------------------------------------------------ containment for both kinds of root *)
+Lemma probe_ok_g c fs cands found log :
+  Forall (fun ne => beneath (spec_root c) (os_path c (fst ne)) = true) cands ->
+  probe c fs cands = (found, log) -> paths_ok c found /\ contained c log = true.
+Proof.
+  revert found log. induction cands as [|[n e] r IH]; intros found log Hc H.
+  - cbn in H. injection H as <- <-. split; [constructor|reflexivity].
+  - inversion Hc as [|? ? Hn Hr]; subst. cbn [fst] in Hn.
+    cbn [probe] in H. unfold bind, stat, ret in H.
+    destruct (probe c fs r) as [found' log'] eqn:E. specialize (IH _ _ Hr eq_refl). destruct IH as [IH1 IH2].
+    injection H as <- <-. split.
+    + destruct (exists_ (fs_stat fs (os_path c n))); [constructor; assumption|assumption].
+    + rewrite app_nil_r. cbn [app]. unfold contained in *. cbn [forallb snd]. rewrite Hn, IH2. reflexivity.
+Qed.
+
+Lemma compute_files_ok_g c fs name T files log :
+  wf c -> names c fs name T -> compute_files c fs name = (files, log) ->
+  paths_ok c files /\ contained c log = true.
+Proof.
+  intros Hwf Hn H. unfold compute_files, bind, ret in H.
+  destruct (probe c fs (candidates c name)) as [found l1] eqn:E1.
+  destruct (sizes fs found) as [keyed l2] eqn:E2. injection H as <- <-.
+  assert (Hc : Forall (fun ne => beneath (spec_root c) (os_path c (fst ne)) = true) (candidates c name)).
+  { destruct Hn as (_ & _ & _ & Hn). apply Forall_forall. intros [n e] Hin. cbn [fst]. apply candidates_iff in Hin.
+    destruct Hin as [[-> ->] | (ext & e' & -> & -> & Hv)].
+    - destruct (Hn [] ltac:(intros []) ltac:(intros [])) as [Hb _]. rewrite app_nil_r in Hb. exact Hb.
+    - destruct (ext_ok c ext e' Hwf Hv) as [He Hez]. exact (proj1 (Hn ext He Hez)). }
+  destruct (probe_ok_g c fs _ _ _ Hc E1) as [Hf Hl1].
+  destruct (sizes_ok c fs _ _ _ Hf E2) as [Hk Hl2]. split.
+  - apply paths_ok_sort. assumption.
+  - rewrite app_nil_r, contained_app, Hl1, Hl2. reflexivity.
+Qed.
+
+Lemma possible_files_ok_g c fs fm name T files fm' log :
+  wf c -> names c fs name T -> fm_ok c fm ->
+  possible_files c fs fm name = ((files, fm'), log) ->
+  paths_ok c files /\ fm_ok c fm' /\ contained c log = true.
+Proof.
+  intros Hwf Hn Hfm H. unfold possible_files in H. destruct (fm_get fm name) as [cached|] eqn:E.
+  - unfold ret in H. injection H as <- <- <-. repeat split; [eapply Hfm; eassumption|assumption].
+  - unfold bind, ret in H. destruct (compute_files c fs name) as [fl l1] eqn:E1.
+    injection H as <- <- <-. destruct (compute_files_ok_g c fs name T _ _ Hwf Hn E1) as [Hp Hl].
+    repeat split; [assumption| |rewrite app_nil_r; assumption].
+    destruct (c_reload c); [assumption|].
+    intros n fl' Hget. cbn [fm_get] in Hget. destruct (text_eqb n name).
+    + injection Hget as <-. assumption.
+    + eapply Hfm; eassumption.
+Qed.
+
+Lemma serve_contained_g c rq pi fs fm t r fm' log :
+  wf c -> root_is_dir c fs -> fm_ok c fm ->
+  serve c rq pi fs fm t = ((r, fm'), log) -> contained c log = true /\ fm_ok c fm'.
+Proof.
+  intros Hwf Hroot Hfm H. unfold serve in H.
+  assert (Hname : forall name T l1, names c fs name T -> contained c l1 = true ->
+            bind (RNName name, l1) (fun rn =>
+              match rn with
+              | RNResp r0 => ret (r0, fm)
+              | RNName name =>
+                  bind (possible_files c fs fm name) (fun ff =>
+                    let files := fst ff in
+                    match best_match rq files with
+                    | None => ret (with_url c pi (R404 2), snd ff)
+                    | Some (p, enc) =>
+                        bind (file_response fs p enc (Nat.ltb 1 (length files))) (fun r1 => ret (r1, snd ff))
+                    end)
+              end) = ((r, fm'), log) -> contained c log = true /\ fm_ok c fm').
+  { intros name T l1 Hn Hl1 E. unfold bind at 1 in E.
+    unfold bind at 1 in E.
+    destruct (possible_files c fs fm name) as [[files fm1] l2] eqn:E2.
+    destruct (possible_files_ok_g c fs fm name T files fm1 l2 Hwf Hn Hfm E2) as (Hp & Hfm1 & Hl2).
+    cbn [fst snd] in E. destruct (best_match rq files) as [[p enc]|] eqn:E3.
+    + unfold bind in E. destruct (file_response fs p enc (Nat.ltb 1 (length files))) as [r1 l3] eqn:E4.
+      unfold ret in E. injection E as <- <- <-. split; [|assumption].
+      destruct (best_match_in _ _ _ _ E3) as (f & Hf & <-).
+      unfold paths_ok in Hp. rewrite Forall_forall in Hp.
+      rewrite !contained_app, Hl1, Hl2. cbn [andb contained forallb].
+      rewrite andb_true_r. eapply file_response_ok; [apply Hp; eassumption|eassumption].
+    + unfold ret in E. injection E as <- <- <-. split; [|assumption].
+      rewrite !contained_app, Hl1, Hl2. reflexivity. }
+  destruct (forallb seg_ok t) eqn:Hok.
+  - destruct (grn_names c rq pi fs t Hwf Hok) as (iname & nname & lg & E & Hlg & Hni & Hnn). rewrite E in H.
+    destruct (is_dir (walk fs [] (spec_root c ++ t))) eqn:Hd.
+    + unfold dir_or_redirect in H. destruct (path_url c pi) as [u|].
+      * destruct (endswith url_dir_suffix u).
+        -- eapply Hname; eassumption.
+        -- unfold bind, ret in H. injection H as <- <- <-. rewrite app_nil_r. split; assumption.
+      * unfold bind, ret in H. injection H as <- <- <-. rewrite app_nil_r. split; assumption.
+    + assert (Hne : t <> []).
+      { intros ->. rewrite app_nil_r in Hd. unfold root_is_dir in Hroot. congruence. }
+      eapply Hname; [exact (Hnn Hne)|exact Hlg|exact H].
+  - unfold get_resource_name in H. rewrite (secure_bad t Hok) in H. unfold bind, ret in H.
+    injection H as <- <- <-. split; [reflexivity|assumption].
+Qed.
+
+Lemma run_request_contained_g c fs fm rq r fm' log :
+  wf c -> root_is_dir c fs -> fm_ok c fm ->
+  run_request c fs fm rq = ((r, fm'), log) -> contained c log = true /\ fm_ok c fm'.
+Proof.
+  intros Hwf Hroot Hfm H. unfold run_request, serve_path_info in H.
+  assert (Hret : forall r0, ret (r0, fm) = ((r, fm'), log) -> contained c log = true /\ fm_ok c fm').
+  { intros r0 E. unfold ret in E. injection E as <- <- <-. split; [reflexivity|assumption]. }
+  destruct (c_mount c) as [|[q|q|]].
+  - destruct (decode (unquote (r_raw rq))) as [p0|]; [|eapply Hret; eassumption].
+    destruct (route_match _ _) as [rest|]; [|eapply Hret; eassumption].
+    destruct static_use_subpath; [eapply serve_contained_g; eassumption|].
+    destruct (view_tuple _); [eapply Hret; eassumption|eapply serve_contained_g; eassumption].
+  - eapply serve_contained_g; eassumption.
+  - destruct q as [q|q|]; try (eapply serve_contained_g; eassumption).
+    destruct (view_tuple _); [eapply Hret; eassumption|eapply serve_contained_g; eassumption].
+  - destruct (decode (unquote (r_raw rq))) as [p0|]; [|eapply Hret; eassumption].
+    destruct (route_match _ _) as [rest|]; [|eapply Hret; eassumption].
+    eapply serve_contained_g; eassumption.
+Qed.
+
+Lemma run_requests_contained_g c fs rqs : forall fm,
+  wf c -> root_is_dir c fs -> fm_ok c fm ->
+  Forall (fun rl => contained c (snd rl) = true) (run_requests c fs fm rqs).
+Proof.
+  induction rqs as [|rq rqs IH]; intros fm Hwf Hroot Hfm; [constructor|].
+  cbn [run_requests]. destruct (run_request c fs fm rq) as [[r fm'] log] eqn:E.
+  destruct (run_request_contained_g c fs fm rq r fm' log Hwf Hroot Hfm E) as [Hl Hfm'].
+  constructor; [exact Hl|apply IH; assumption].
+Qed.
+
+Theorem containment c fs rqs :
+  wf c -> root_is_dir c fs -> Forall (fun rl => contained c (snd rl) = true) (run_model c fs rqs).
+Proof. intros. apply run_requests_contained_g; [assumption|assumption|apply fm_ok_nil]. Qed.
+
+(* ------------------------------------------------------------ examples *)
+(* package root: module directory "/m", docroot "s/" (trailing slash), index "i" *)
+Definition ex_pkg (mount : N) : config :=
+  mkConfig mount [115] true [115; 47] [47; 109] [105] [[103]] [([46; 103], [103])] [104] [47] false.
+Definition ex_pkg_fs : fsys :=
+  [ ([[109]], EDir 0); ([[109]; [115]], EDir 0); ([[109]; [115]; [105]], EFile 2 [4; 5]);
+    ([[109]; [111]], EFile 1 [8]) ].
+
+Lemma ex_pkg_wf mount : mount <> 0 -> wf (ex_pkg mount).
+Proof.
+  intros Hm. right. unfold wf_pkg. cbn [c_pkg c_docroot c_modpath c_encmap ex_pkg].
+  assert (Hi : eff_index (ex_pkg mount) = [105]).
+  { unfold eff_index. cbn [c_mount ex_pkg c_index]. destruct mount; [congruence|reflexivity]. }
+  rewrite Hi. split; [reflexivity|]. split.
+  - exists 1%nat, [[109]]. split; [left; reflexivity|].
+    split; [constructor; [apply normal_segb_spec; reflexivity|constructor]|].
+    split; [constructor; [apply notin_b; reflexivity|constructor]|reflexivity].
+  - split.
+    + cbn. constructor; [right; split; [apply normal_segb_spec; reflexivity|apply notin_b; reflexivity]|].
+      constructor; [left; reflexivity|constructor].
+    + split; [apply normal_segb_spec; reflexivity|]. split; [apply notin_b; reflexivity|].
+      constructor; [|constructor]. cbn [fst]. split; apply notin_b; reflexivity.
+Qed.
+
+(* "/../o" on the package root: "/m/s/o" is probed (never "/m/o"); "/" serves the index *)
+Example pkg_nonvacuous :
+  let c := ex_pkg 1 in
+  wf c /\ root_is_dir c ex_pkg_fs /\ host_ok c /\
+  exists l1 l2,
+    run_model c ex_pkg_fs [mkReq [47; 46; 46; 47; 111] [] [] false []; mkReq [47] [] [] false []] =
+      [(R404 2, l1); (R200 [4; 5] None false, l2)] /\
+    contained c l1 = true /\ contained c l2 = true /\ l1 <> [].
+Proof.
+  split; [apply ex_pkg_wf; discriminate|]. split; [vm_compute; reflexivity|]. split; [split; reflexivity|].
+  eexists. eexists. split; [vm_compute; reflexivity|]. repeat split; try (vm_compute; reflexivity). discriminate.
+Qed.
+
+(* conformance is not vacuous: the directory without a trailing slash is redirected, as the specification says *)
+Example conform_nonvacuous :
+  let c := ex_cfg 1 [47; 114] in
+  let rq := mkReq [47; 46; 47] [] [113] false [] in
+  wf c /\ root_is_dir c ex_fs /\ host_ok c /\ decodable c rq /\
+  spec_response c rq ex_fs = spec_serve c rq ex_fs [[114]; [105]] /\
+  spec_response c (mkReq [] [] [113] false []) ex_fs = S301 [104; 47; 63; 113].
+Proof.
+  split; [left; apply ex_wf; [discriminate|reflexivity|reflexivity]|]. split; [vm_compute; reflexivity|].
+  split; [split; reflexivity|]. split; [left; right; left; reflexivity|]. split; vm_compute; reflexivity.
 Qed.
